@@ -154,7 +154,24 @@ def check_import(case, ctx):
         private = typ == "prv"
         s = rnode.xprv(v) if private else rnode.xpub(v)
         what = "wallet imported from %s... (%snet %s)" % (s[:4], net, typ)
-        st_, w = call(cls.from_extended_key, s)
+        # the key arrives as a string through from_extended_key, or as bytes / a stream through the node class with the
+        # network passed explicitly (the documented parse(s, testnet) forms), the wallet then built around that node
+        from io import BytesIO
+        from btc_hd_wallet.bip32 import PrvKeyNode, PubKeyNode
+        ncls = PrvKeyNode if private else PubKeyNode
+        raw = rnode.payload(v, private)
+        variant = (v + len(case["path"]) + len(case["sub"])) % 4
+        if variant == 1:
+            what += " via parse(bytes, testnet)"
+            st_, w = call(lambda: cls(ncls.parse(raw, testnet), testnet))
+        elif variant == 2:
+            what += " via parse(BytesIO, testnet=)"
+            st_, w = call(lambda: cls(master=ncls.parse(BytesIO(raw), testnet=testnet), testnet=testnet))
+        elif variant == 3:
+            what += " via parse(str, testnet)"
+            st_, w = call(lambda: cls(ncls.parse(s, testnet), testnet))
+        else:
+            st_, w = call(cls.from_extended_key, s)
         if st_ == "exc":
             raise Violation("C16/import/raised", "%s raised %r" % (what, w))
         if bool(w.testnet) != testnet:
@@ -227,6 +244,29 @@ def check_mismatch(case, ctx):
     tagged("C16/mismatch/node-keys-network", "node_extended_keys prv", k2["prv"], net, ctx, ("xprv",))
     for kind in KINDS:
         tagged("C16/mismatch/address-network", kind, getattr(w, kind + "_address")(child), net, ctx)
+    # two wallets of different networks around ONE node object: the first wallet (whose network is the node's own) is
+    # questioned again after the second was built and used
+    shared = PrvKeyNode.master_key(case["seed"], testnet)
+    A = PaperWallet(shared, testnet)
+    before = [A.wasabi_json(), shared.extended_public_key(), A.master.derive_path([H + 84, H, H]).extended_public_key()]
+    B = PaperWallet(shared, not testnet) if case["positional"] else PaperWallet(master=shared, testnet=not testnet)
+    call(B.generate, case["account"], (0, 1))
+    call(B.wasabi_json)
+    after = [A.wasabi_json(), shared.extended_public_key(), A.master.derive_path([H + 84, H, H + 1]).extended_public_key()]
+    for label, val in (("Wasabi ExtPubKey", json.loads(after[0])["ExtPubKey"]), ("master extended_public_key()", after[1]),
+                       ("extended_public_key() of a node derived afterwards", after[2])):
+        tagged("C16/shared-node/first-wallet-network-changed", "a %snet wallet after a %snet wallet was built around the same "
+               "master node object: %s" % (net, NET[not testnet], label), val, net, ctx, ("xpub",))
+    if after[:2] != before[:2]:
+        raise Violation("C16/shared-node/first-wallet-output-changed", "a %snet wallet's Wasabi export / master key changed after "
+                        "another wallet was built around the same node object: %r -> %r" % (net, before[:2], after[:2]))
+    data = A.generate(case["account"], (0, 1))
+    for sec_name in ("BIP44", "BIP49", "BIP84"):
+        tagged("C16/shared-node/first-wallet-network-changed", "%s account pub of the first wallet" % sec_name,
+               data[sec_name]["account_extended_keys"]["pub"], net, ctx, ("xpub",))
+        for row in data[sec_name]["groups"]:
+            tagged("C16/shared-node/first-wallet-network-changed", "%s row address of the first wallet" % sec_name, row[1], net, ctx)
+            tagged("C16/shared-node/first-wallet-network-changed", "%s row WIF of the first wallet" % sec_name, row[3], net, ctx, ("wif",))
 
 
 def check_two_networks(case, ctx):
